@@ -196,7 +196,7 @@ func (p *Prog) lvbiRange(v ssa.Value) (*big.Int, string, bool) {
 	if !ok || ld.Op != token.MUL {
 		return nil, "", false
 	}
-	cls, _, ok := classOfAddr(ld.X)
+	cls, lbase, ok := classOfAddr(ld.X)
 	if !ok || cls.alloc != nil {
 		return nil, "", false
 	}
@@ -206,7 +206,7 @@ func (p *Prog) lvbiRange(v ssa.Value) (*big.Int, string, bool) {
 			for _, ins := range b.Instrs {
 				switch x := ins.(type) {
 				case *ssa.Store:
-					if k, _, ok := classOfAddr(x.Addr); ok && k.same(cls) && !storeIntoPrivateTemp(x) {
+					if k, sb, ok := classOfAddr(x.Addr); ok && k.same(cls) && (!storeIntoPrivateTemp(x) || sb == lbase) {
 						return nil, "", false
 					}
 				case *ssa.Call:
